@@ -470,7 +470,7 @@ func Main(args []string) int {
 		kinds := []string{"short", "dropped", "badtime", "escaped", "malformed"}
 		nh := 60
 		if thorough {
-			nh = 600
+			nh = 250 // at most 2500 record objects per agent: RecordPoolTrace.cfg has room for 3000 (MaxObj)
 		}
 		for i := 0; i < nh; i++ {
 			h := []string{}
